@@ -494,3 +494,37 @@ m('C07','video-low-first-track',W,
 m('C07','limit-sid-always',W,
   '\t\tif count < 2 {\n\t\t\tlimitSid = true\n\t\t}','\t\tlimitSid = count < 3',
   'R7.5','low quality from a non-simulcast','spatial layer limited although a low track exists')
+# ---------------- C02 ----------------
+R='rtpconn/rtpconn.go'
+PM='packetmap/packetmap.go'
+m('C02','pid-delta-unnegated',R,
+  'err = codecs.RewritePacket(codec, buf2[:n], setMarker, newseqno, -piddelta)','err = codecs.RewritePacket(codec, buf2[:n], setMarker, newseqno, piddelta)',
+  'R2.2','picture-id delta polarity','picture ids jump forward after a withheld frame',quick=True)
+m('C02','rewriter-subtracts',C,
+  '\t\t\tpid = (pid + delta) & 0x7FFF','\t\t\tpid = (pid - delta) & 0x7FFF',
+  'R2.2','picture-id delta polarity','15-bit ids rewritten with the opposite sign of 7-bit ids')
+m('C02','drop-counts-up',PM,
+  '\tm.delta--\n\tm.next = seqno + 1\n\treturn true','\tm.delta++\n\tm.next = seqno + 1\n\treturn true',
+  'R2.2','sequence-number delta polarity','withheld packets open double gaps')
+m('C02','drop-pid-inverted',PM,
+  '\tm.pidDelta += pid - m.nextPid','\tm.pidDelta += m.nextPid - pid',
+  'R2.2','picture-id delta polarity','producer and consumer disagree on the sign of the picture-id delta')
+m('C02','rewrite-in-place',R,
+  '\tn := copy(buf2, buf)\n\terr = codecs.RewritePacket(codec, buf2[:n], setMarker, newseqno, -piddelta)\n\tif err != nil {\n\t\treturn 0, err\n\t}\n\treturn down.write(buf2[:n])',
+  '\tn := copy(buf2, buf)\n\terr = codecs.RewritePacket(codec, buf[:n], setMarker, newseqno, -piddelta)\n\tif err != nil {\n\t\treturn 0, err\n\t}\n\treturn down.write(buf[:n])',
+  'R2.3','the rewriter works on a pooled copy','cached packet rewritten in place')
+m('C02','write-full-buffer',R,
+  '\treturn down.write(buf2[:n])','\treturn down.write(buf2)',
+  'R2.3','the rewritten slice is what is written out','1504 bytes written for every packet')
+m('C02','marker-cleared',C,
+  '\tif setMarker {\n\t\tdata[1] |= 0x80\n\t}','\tif setMarker {\n\t\tdata[1] |= 0x80\n\t} else {\n\t\tdata[1] &= 0x7F\n\t}',
+  'R2.1','store to data[1]','marker bit cleared on forwarded packets')
+m('C02','rewriter-touches-timestamp',C,
+  '\tdata[2] = uint8(seqno >> 8)\n\tdata[3] = uint8(seqno)','\tdata[2] = uint8(seqno >> 8)\n\tdata[3] = uint8(seqno)\n\tdata[4] = uint8(seqno)',
+  'R2.1','store to data[4]','timestamp byte overwritten')
+m('C02','pid-rewrite-any-codec',C,
+  '\tif strings.EqualFold(codec, "video/vp8") {\n\t\tx := (data[offset] & 0x80) != 0','\tif !strings.EqualFold(codec, "audio/opus") {\n\t\tx := (data[offset] & 0x80) != 0',
+  'R2.1','store to data[offset','VP9/H264 payload bytes rewritten as picture ids')
+m('C02','marker-any-layer',R,
+  '\tsetMarker := flags.Sid == layer.sid && flags.End && !flags.Marker','\tsetMarker := flags.End && !flags.Marker',
+  'R2.4','marker only at the end','marker set on lower spatial layers')
